@@ -792,6 +792,7 @@ impl Server {
             
             // Check for special commands that need connection access
             let mut sync_response = None;
+            let mut writes_own_replies = false;
             if let RespFrame::Array(Some(parts)) = &frame {
                 if !parts.is_empty() {
                     if let RespFrame::BulkString(Some(bytes)) = &parts[0] {
@@ -814,6 +815,7 @@ impl Server {
                             // Pub/sub commands need immediate response for proper timing coordination
                             "SUBSCRIBE" | "UNSUBSCRIBE" | "PSUBSCRIBE" | "PUNSUBSCRIBE" => {
                                 needs_immediate_flush = true;
+                                writes_own_replies = true;
                             }
                             _ => {}
                         }
@@ -829,6 +831,23 @@ impl Server {
                         }
                     }
                 }
+            }
+            
+            // The pub/sub handlers write their acknowledgements to the connection themselves.
+            // Replies to earlier commands of the same read are still queued here and must be
+            // written first, or the acknowledgements overtake them.
+            if writes_own_replies && !responses.is_empty() {
+                let queued: Vec<RespFrame> = responses.drain(..).collect();
+                self.connections.with_connection(id, |conn| {
+                    for response in queued.iter() {
+                        if let RespFrame::NoResponse = response {
+                            continue;
+                        }
+                        if let Err(e) = conn.send_frame(response) {
+                            eprintln!("Send error for connection {}: {}", id, e);
+                        }
+                    }
+                });
             }
             
             let response = if let Some(sync_resp) = sync_response {
